@@ -97,6 +97,10 @@ func (w *World) fullPrelude() string {
 	b.WriteString("(declare-fun elemref (Int Int) Int)\n(assert (forall ((a Int) (i Int)) (! (not (= (elemref a i) 0)) :pattern ((elemref a i)))))\n")
 	b.WriteString("(declare-fun idx (Int Int) Int)\n(assert (forall ((o Int) (i Int)) (! (= (idx o i) (+ o i)) :pattern ((idx o i)))))\n")
 	b.WriteString("(declare-fun runeCount (Str) Int)\n(assert (forall ((s Str)) (! (and (<= 0 (runeCount s)) (<= (runeCount s) (strlen s))) :pattern ((runeCount s)))))\n")
+	// []rune(s) and string(runes): runesOf(s) is the array of code points of s (length runeCount s); strOfRunes decodes a
+	// window of such an array; the suffix of s from character p on is what the window [p, runeCount s) of runesOf(s) encodes
+	b.WriteString("(declare-fun runesOf (Str) (Array Int Int))\n(declare-fun strOfRunes ((Array Int Int) Int Int) Str)\n(declare-fun runeSuffix (Str Int) Str)\n")
+	b.WriteString("(assert (forall ((s Str) (p Int)) (! (= (strOfRunes (runesOf s) p (- (runeCount s) p)) (runeSuffix s p)) :pattern ((strOfRunes (runesOf s) p (- (runeCount s) p))))))\n")
 	b.WriteString("(declare-fun implementsI (Int Int) Bool)\n(declare-fun cloFn (Int) Int)\n(declare-fun cloBind (Int Int) Int)\n")
 	var names []string
 	for _, g := range w.globalOrder() {
